@@ -13,8 +13,16 @@
      Read(w, r, ok, g, rest)    what reader r made of t: Iso to x for write-shared, Equal to x otherwise;
                                 the whole text is consumed; both readers agree on the same text
      End
-   and of a text case (mutated text fed to both readers):  Begin, Text(t), Read("text", r, ..) x 2, End:
-   both readers fall in the same outcome class and, if both return a datum, the data are isomorphic. *)
+   and of a text case (a text fed to both readers):  Begin, Text(t, tok, j), Read("text", r, ..) x 2, End.
+   What is required depends on the text (decided here, not by the generator):
+     j = "agree"     (texts produced by the writers, R7RS-valid hand-written and generated texts):
+                     both readers fall in the same outcome class (error / datum / non-datum such as the
+                     end-of-file object) and, if both return a datum, the data are isomorphic;
+     j = "truncated" (a prefix of a written text): if the abstract reader finds it INCOMPLETE (open list,
+                     vector, string, |symbol|, label or abbreviation without datum) both readers must
+                     signal an error (R7RS read); if it is a complete valid datum, as for "agree";
+     otherwise       (arbitrary mutations; R7RS leaves the outcome open): only Begin/End pairing - the
+                     readers must return or raise, not crash or hang. *)
 EXTENDS TextRead, Json, IOUtils
 TraceLog == ndJsonDeserialize(IOEnv.TRACE)
 NoG == [r |-> 0, n |-> <<>>]
@@ -25,8 +33,9 @@ VARIABLES l,      \* next event
           x,      \* measured datum
           wr,     \* writer of the current text ("text" for a given text)
           y1,     \* <<reader, ok, g>> of the first read of the current text, or <<>>
+          tj,     \* what is required of the readers on the current given text: "agree" | "error" | "total"
           cnt     \* [cases, writes, reads, textreads, rejects]
-vars == <<l, ph, cid, rec, x, wr, y1, cnt>>
+vars == <<l, ph, cid, rec, x, wr, y1, tj, cnt>>
 Ev == TraceLog[l]
 IsEvent(e) == l <= Len(TraceLog) /\ Ev.e = e /\ l' = l + 1
 Reject(id, why, w, r) == PrintT(<<"C08REJECT", id, why, w, r>>)
@@ -37,10 +46,10 @@ Bump(f, bad) == [cnt EXCEPT ![f] = @ + 1, !.rejects = @ + (IF bad THEN 1 ELSE 0)
 
 TRecipe == /\ IsEvent("Recipe")
            /\ rec' = Ev.g
-           /\ UNCHANGED <<ph, cid, x, wr, y1, cnt>>
+           /\ UNCHANGED <<ph, cid, x, wr, y1, tj, cnt>>
 TBegin == /\ IsEvent("Begin")
           /\ IF ph = "idle" THEN TRUE ELSE Reject(cid, "no-end", wr, "")
-          /\ ph' = "open" /\ cid' = Ev.id /\ x' = NoG /\ wr' = "" /\ y1' = <<>>
+          /\ ph' = "open" /\ cid' = Ev.id /\ x' = NoG /\ wr' = "" /\ y1' = <<>> /\ tj' = "total"
           /\ cnt' = Bump("cases", ph # "idle")
           /\ UNCHANGED rec
 TDatum == /\ IsEvent("Datum")
@@ -51,7 +60,7 @@ TDatum == /\ IsEvent("Datum")
              IN /\ (IF why = "" THEN TRUE ELSE Reject(Ev.id, why, "", ""))
                 /\ cnt' = [cnt EXCEPT !.rejects = @ + (IF why = "" THEN 0 ELSE 1)]
           /\ x' = Ev.g
-          /\ UNCHANGED <<ph, cid, rec, wr, y1>>
+          /\ UNCHANGED <<ph, cid, rec, wr, y1, tj>>
 TextWhy(w, t, tok) ==
   IF ~LexOK(tok, t) THEN "text-lex"
   ELSE LET rd == Read(tok) IN
@@ -66,10 +75,24 @@ TWrite == /\ IsEvent("Write")
              IN /\ (IF why = "" THEN TRUE ELSE Reject(Ev.id, why, Ev.w, ""))
                 /\ cnt' = Bump("writes", why # "")
           /\ wr' = Ev.w /\ y1' = <<>>
-          /\ UNCHANGED <<ph, cid, rec, x>>
+          /\ UNCHANGED <<ph, cid, rec, x, tj>>
+\* the abstract reader met no error but the datum is not finished
+Incomplete(tok) ==
+  LET n == Len(tok)
+      unterminated == n >= 1 /\ tok[n].t \in {"str", "psym"} /\ ~TokOK(tok[n])
+      body == IF unterminated THEN SubSeq(tok, 1, n - 1) ELSE tok
+      ps == Run(body)
+  IN /\ \A i \in 1..Len(body) : TokOK(body[i])
+     /\ ps.err = ""
+     /\ (unterminated \/ ps.stk # <<>> \/ ps.pend # <<>>)
+NoOdd(g) == \A i \in 1..Len(g.n) : g.n[i].k # "odd"
+ValidText(tok, t) == LexOK(tok, t) /\ Read(tok).ok /\ NoOdd(Read(tok).g)
 TText == /\ IsEvent("Text")
          /\ (IF ph = "open" /\ Ev.id = cid THEN TRUE ELSE Reject(Ev.id, "event-order", "text", ""))
          /\ wr' = "text" /\ y1' = <<>>
+         /\ tj' = IF Ev.j = "agree" THEN "agree"
+                  ELSE IF Ev.j = "truncated" THEN (IF Incomplete(Ev.tok) THEN "error" ELSE IF ValidText(Ev.tok, Ev.t) THEN "agree" ELSE "total")
+                  ELSE "total"
          /\ cnt' = [cnt EXCEPT !.rejects = @ + (IF ph = "open" /\ Ev.id = cid THEN 0 ELSE 1)]
          /\ UNCHANGED <<ph, cid, rec, x>>
 Agree(a, ok, g) ==        \* a = <<reader, ok, g>> of the other reader on the same text
@@ -83,7 +106,10 @@ AgreeText(a, ok, g) ==
 TRead == /\ IsEvent("Read")
          /\ LET why ==
                   IF ~(ph = "open" /\ Ev.id = cid /\ Ev.w = wr) THEN "event-order"
-                  ELSE IF wr = "text" THEN (IF y1 = <<>> THEN "" ELSE AgreeText(y1, Ev.ok, Ev.g))
+                  ELSE IF wr = "text" THEN
+                     (IF tj = "error" THEN (IF Ev.ok # 1 THEN "" ELSE "incomplete-text-accepted")
+                      ELSE IF tj = "agree" /\ y1 # <<>> THEN AgreeText(y1, Ev.ok, Ev.g)
+                      ELSE "")
                   ELSE IF Ev.ok # 1 THEN "read-error"
                   ELSE IF ~WellFormed(Ev.g) THEN "read-malformed"
                   ELSE IF wr = "shared" /\ ~Same(x, Ev.g) THEN "not-iso"
@@ -91,19 +117,23 @@ TRead == /\ IsEvent("Read")
                   ELSE IF Ev.rest # 1 THEN "text-not-consumed"
                   ELSE IF y1 = <<>> THEN "" ELSE Agree(y1, Ev.ok, Ev.g)
             IN /\ (IF why = "" THEN TRUE ELSE Reject(Ev.id, why, wr, Ev.r))
+               /\ (IF why \in {"not-iso", "not-equal"}       \* how many corresponding nodes differ (of how many)
+                   THEN PrintT(<<"C08DETAIL", Ev.id, wr, Ev.r, Cardinality({q \in Pairs(x, Ev.g) : ~Compat(x, Ev.g, q[1], q[2])}), Cardinality(Pairs(x, Ev.g))>>)
+                   ELSE TRUE)
                /\ cnt' = Bump(IF wr = "text" THEN "textreads" ELSE "reads", why # "")
          /\ y1' = <<Ev.r, Ev.ok, Ev.g>>
-         /\ UNCHANGED <<ph, cid, rec, x, wr>>
+         /\ (IF wr = "text" THEN PrintT(<<"C08TEXT", Ev.id, tj, Ev.r, Cls(Ev.ok, Ev.g)>>) ELSE TRUE)
+         /\ UNCHANGED <<ph, cid, rec, x, wr, tj>>
 TEnd == /\ IsEvent("End")
         /\ (IF ph = "open" /\ Ev.id = cid THEN TRUE ELSE Reject(Ev.id, "event-order", "", ""))
         /\ cnt' = [cnt EXCEPT !.rejects = @ + (IF ph = "open" /\ Ev.id = cid THEN 0 ELSE 1)]
-        /\ ph' = "idle" /\ UNCHANGED <<cid, rec, x, wr, y1>>
-TInfo == /\ IsEvent("Info") /\ UNCHANGED <<ph, cid, rec, x, wr, y1, cnt>>
+        /\ ph' = "idle" /\ UNCHANGED <<cid, rec, x, wr, y1, tj>>
+TInfo == /\ IsEvent("Info") /\ UNCHANGED <<ph, cid, rec, x, wr, y1, tj, cnt>>
 TFin == /\ IsEvent("Fin")
         /\ IF ph = "idle" THEN TRUE ELSE Reject(cid, "no-end", wr, "")
         /\ PrintT(<<"C08SUMMARY", cnt.cases, cnt.writes, cnt.reads, cnt.textreads, cnt.rejects + (IF ph = "idle" THEN 0 ELSE 1)>>)
-        /\ ph' = "idle" /\ UNCHANGED <<cid, rec, x, wr, y1, cnt>>
-TraceInit == /\ l = 1 /\ ph = "idle" /\ cid = 0 /\ rec = NoG /\ x = NoG /\ wr = "" /\ y1 = <<>>
+        /\ ph' = "idle" /\ UNCHANGED <<cid, rec, x, wr, y1, tj, cnt>>
+TraceInit == /\ l = 1 /\ ph = "idle" /\ cid = 0 /\ rec = NoG /\ x = NoG /\ wr = "" /\ y1 = <<>> /\ tj = "total"
              /\ cnt = [cases |-> 0, writes |-> 0, reads |-> 0, textreads |-> 0, rejects |-> 0]
 TraceNext == TRecipe \/ TBegin \/ TDatum \/ TWrite \/ TText \/ TRead \/ TEnd \/ TInfo \/ TFin
 TraceSpec == TraceInit /\ [][TraceNext]_vars
